@@ -298,7 +298,7 @@ pub fn check(c: &Case) -> Outcome {
                 let s = st.borrow();
                 let got_frames: Vec<RFrame> = s.events.iter().filter_map(|e| if let Ev::Frame(f) = e { Some(f.clone()) } else { None }).collect();
                 let ended: Option<&Ev> = s.events.iter().find(|e| !matches!(e, Ev::Frame(_)));
-                let want = d.delivered();
+                let want: Vec<RFrame> = d.delivered().iter().map(|f| f.norm()).collect();
                 if let Some(p) = &w.conns[conn].handler_panic {
                     fails.push((decoder_panic_signature(p), format!("decoder panicked after {} of {} bytes (cuts {:?}): {}", sent, stream2.len(), cuts2, p)));
                     break;
@@ -583,6 +583,11 @@ pub fn check_task(c: &TaskCase) -> Outcome {
     o
 }
 
+#[derive(Clone, Debug, Serialize, Deserialize)]
+pub struct RawParse {
+    pub bytes: Vec<u8>,
+}
+
 /// Pure level (fuzz target fz_frames): one Frame::parse call on a buffer. Only one-directional, refactoring-safe
 /// consequences are asserted: no panic; if a frame is returned it is the reference decoder's first frame and the
 /// cursor stands at its end; a buffer the reference decodes to a complete known first frame is not rejected.
@@ -600,7 +605,7 @@ pub fn check_parse_bytes(data: &[u8]) -> Outcome {
         Err(p) => o.fail(format!("parse-{}", panic_signature(&p)), format!("Frame::parse panicked: {}", p)),
         Ok((Ok(f), pos)) => match d.frames.first() {
             Some((rf, end)) => {
-                if &f != rf || pos != *end {
+                if f != rf.norm() || pos != *end {
                     o.fail("parse-differs-from-reference", format!("Frame::parse returned {} ending at {}, reference {} ending at {}", f.short(), pos, rf.short(), end));
                 }
             }
@@ -649,6 +654,13 @@ pub fn def() -> PropDef {
             run: |ctx| run_proptest(ctx, "decoder", strategy(ctx.tier), check),
             replay: |v| replay_case::<Case>(v, check),
             min_class: &[("unknown-id", 0.2636), ("malformed", 0.15), ("cut-inside-length-prefix", 0.15), ("cut-right-after-skipped-message", 0.03), ("cut-inside-unknown-message", 0.03), ("eof-inside-frame", 0.034), (">=2-segments", 0.3531)],
+        },
+        Sub {
+            name: "raw",
+            cases: |_| 0,
+            run: |_| WorkerReport::default(),
+            replay: |v| replay_case::<RawParse>(v, |c| check_parse_bytes(&c.bytes)),
+            min_class: &[],
         },
         Sub {
             name: "task",
